@@ -370,6 +370,7 @@ def run(rep, tier):
     rep.saw_programs(progs.values())
     nsites = 0
     from . import approx, c07
+    rep.rule('R07b', 'the finder objects of the TBB variants hold no reference to a constructor-local copy (the task bodies read through it)', floor=0)
     rep.rule('R07e', 'unchecked indexing inside blocked_range task bodies stays in bounds (shared with C07)', floor=1)
     rep.rule('R07k', 'reduction identities written as numeric_limits<T>::infinity() are 0 for integral weight types (the identity then wins every join)', floor=0)
     rep.rule('R06d', 'approximate TBB builder: the shortest-path maps are fresh for every index of the sub-range (shared with C06; stale maps make the result '
@@ -380,6 +381,13 @@ def run(rep, tier):
         approx.report(rep, F, ['R06d'])
         c07.r07e(rep, prog)
         c07.r07k(rep, prog)
+        # what the task bodies read through the finder object must be alive while they run: a reference member bound to a by-value constructor
+        # parameter dangles as soon as the constructor returns (shared with C07)
+        sub7 = type(rep)(rep.prop, rep.tier)
+        c07.r07b_params(sub7, prog)
+        for i in sub7.instances.values():
+            if '_tbb' in (i.site or '') or 'tbb' in (i.function or '').lower() or 'OddCycleFinder' in (i.function or ''):
+                rep.add(i.rule, i.site, i.function, i.what, i.status, i.detail, key=i.key)
     rep.extra['parallel_call_sites'] = nsites
     if nsites < 12:
         rep.analysis_broken('only %d tbb parallel call sites found in the library (12 confirmed by hand)' % nsites)
